@@ -43,6 +43,25 @@ theorem leb_size_eq_emit (u : Nat) (s : Int) :
     (Leb.encodeU u).length = Leb.sizeU u ∧ (Leb.encodeS s).length = Leb.sizeS s :=
   ⟨encodeU_length u, encodeS_length s⟩
 
+/-! ## (1b) the emitted bytes are what the form's reader decodes -/
+
+/-- **The bytes written for a value are the encoding the reader of its form decodes** — for the
+address, data1…data16, udata and constant-class, file index, block, string, flag, type signature,
+string-table and section-offset kinds, in every version, format, address size and byte order:
+reading `em.bytes ++ rest` with the primitive readers `read::parse_attribute` uses for the form
+`AttributeValue::form` chose (`Spec/WUnit.lean` `readForm`, built from the readers of C09) gives
+back exactly the intended value (`decoded`) and leaves exactly `rest`.  So `form`, `size` and
+`write` agree not only on the length but on the meaning.
+Partial: signed LEB128 values (`Sdata`, `ImplicitConst` before v5) and expression bodies are
+covered by the length theorem and the read-back oracle only; reference kinds are covered by
+`unit_refs_resolve` / `fixups_resolve` (their bytes are patched later). -/
+theorem attr_bytes_decode_partial (cx : Ctx) (pos : Nat) (v : AttrVal) (em : Emit) (fv : FormVal)
+    (rest : Bytes) (h : attrEmit cx pos v = .ok em) (hr : v.InRange) (hd : decoded cx v = some fv)
+    (hso : ∀ o ∈ cx.strOffsets, o < 2 ^ 64) (hlo : ∀ o ∈ cx.lineStrOffsets, o < 2 ^ 64)
+    (hlp : ∀ o, cx.lineProgram = some o → o < 2 ^ 64) :
+    readForm cx.endian cx.enc (attrForm cx.enc v).1 (em.bytes ++ rest) = .ok (fv, rest) :=
+  attr_bytes_decode' cx pos v em fv rest h hr hd hso hlo hlp
+
 /-! ## (2) pass 1 offsets are pass 2 positions -/
 
 /-- **Main theorem.** Lay a tree out with `calculate_offsets` starting at section offset `start`
@@ -136,6 +155,36 @@ theorem unit_refs_resolve (e : Endian) (so lso : List Nat) (s s' : Sec) (u : Uni
   rw [← hpre] at h2 h3
   exact (unit_refs_resolve' (unitCtx e so lso u p1) (unitRoot u) s.info.length u.nEntries p1 em
     (s.info ++ lf ++ hdr) s'.info hnd h2 rfl rfl h3 h5).1
+
+/-- **…and they still do when `Dwarf::write` returns.** Write unit `u` on top of the sections `s0`,
+then any further units, then patch all queued cross-unit fix-ups: in the final `.debug_info`
+every `UnitRef` placeholder of `u` holds the unit offset of the entry it names — no fix-up
+placeholder overlaps a unit-ref placeholder, fix-ups of other units lie inside those units, and
+later units only append. (`hp0` holds for the empty sections and is preserved by every unit
+write: `fixups_stay_placed`.) -/
+theorem unit_refs_survive (e : Endian) (so lso : List Nat) (s0 s1 s2 : Sec) (u : UnitIn) (o : Offs)
+    (post : List UnitIn) (offs2 allOffs : List Offs) (info : Bytes)
+    (hnd : (unitRoot u).ids.Nodup)
+    (hp0 : Placed 0 s0.info.length (holesI s0.ifix))
+    (h1 : writeUnit e so lso s0 u = .ok (s1, o))
+    (h2 : writeUnits e so lso s1 post = .ok (s2, offs2))
+    (h3 : applyFixups e allOffs s2.info s2.ifix = .ok info) :
+    ∃ (hdr : Bytes) (p1 : P1) (em : Emit),
+      calcTree u.enc (p1Init (s0.info.length + initLenSize u.enc.format + hdr.length) s0.info.length u.nEntries)
+        (unitRoot u) = .ok p1 ∧
+      emitTree (unitCtx e so lso u p1) (s0.info.length + initLenSize u.enc.format + hdr.length) (unitRoot u) = .ok em ∧
+      o = p1.offs ∧
+      ∀ r ∈ em.urefs, ∃ target, (r.2, target) ∈ em.starts ∧ p1.offs.map r.2 = some target ∧
+        ∀ i, i < u.enc.word → info[r.1 + i]? = (toBytes e u.enc.word (target - s0.info.length))[i]? :=
+  unit_refs_final e so lso s0 s1 s2 u o post offs2 allOffs info hnd hp0 h1 h2 h3
+
+/-- the invariant `unit_refs_survive` and `fixups_resolve` rest on: the queued fix-up
+placeholders are in increasing order, pairwise disjoint and inside `.debug_info` — initially
+(no fix-ups) and after every unit write -/
+theorem fixups_stay_placed (e : Endian) (so lso : List Nat) (s s' : Sec) (u : UnitIn) (o : Offs)
+    (h : writeUnit e so lso s u = .ok (s', o)) (hp : Placed 0 s.info.length (holesI s.ifix)) :
+    Placed 0 s'.info.length (holesI s'.ifix) :=
+  (writeUnit_ifix_placed e so lso s s' u o h hp).1
 
 /-- **Every cross-unit fix-up ends up holding the section offset of the entry it names.**
 After a successful `Dwarf::write`: `offs[k]` being the final `UnitOffsets` of unit `k` (the very
@@ -408,6 +457,9 @@ example : (writeDwarf .little [] [] [{ enc := exEnc, nEntries := 4, root := exTr
   decide +kernel
 
 example : fitsIn 0x1234 2 ∧ ¬ fitsIn 0x12345 2 ∧ ¬ fitsIn 0 3 := by decide
+example : (AttrVal.data2 0x1234).InRange ∧ (AttrVal.string [0x61, 0x62]).InRange ∧
+    ¬ (AttrVal.string [0x61, 0]).InRange := by decide
+example : Placed 0 0 (holesI ([] : List IFix)) := Nat.le_refl 0
 example : abbrevAdd [⟨1, true, []⟩] ⟨1, true, []⟩ = (1, [⟨1, true, []⟩]) := by decide
 example : strAdd [[1], [2]] [2] = (1, [[1], [2]]) ∧ strOffsets [[1], [2, 3], []] = [0, 2, 5] := by decide
 
